@@ -8,6 +8,7 @@ mod refmodel;
 mod report;
 mod runner;
 mod xrun;
+mod seeds;
 
 mod cmpx;
 mod c01;
@@ -19,6 +20,10 @@ mod c07;
 mod c08;
 mod c09;
 mod c10;
+mod c14;
+mod c15;
+mod c16;
+mod c19;
 
 use report::{machinery, Report, Tier};
 
@@ -71,6 +76,10 @@ fn main() {
         "C08" => c08::run(&ctx, &mut rep),
         "C09" => c09::run(&ctx, &mut rep),
         "C10" => c10::run(&ctx, &mut rep),
+        "C14" => c14::run(&ctx, &mut rep),
+        "C15" => c15::run(&ctx, &mut rep),
+        "C16" => c16::run(&ctx, &mut rep),
+        "C19" => c19::run(&ctx, &mut rep),
         _ => machinery(&format!("no check registered for {id}")),
     }
     rep.finish();
